@@ -490,13 +490,13 @@ theorem step_ok {c : Cfg} {s s' : St} {op : Op} (hs : StOK c.safe s) (h : step c
       · simp at h
   case persid pid =>
     simp at h; subst h
-    exact hs.push (by unfold persistentLoad; split <;> rfl)
+    exact hs.push (by unfold persistentLoad; split <;> (try split) <;> rfl)
   case binpersid =>
     split at h
     · rename_i pid rest hstk
       simp at h; subst h
       rw [hstk] at hst; simp only [allowedL, Bool.and_eq_true] at hst
-      exact hs.setStack (by simp only [allowedL, Bool.and_eq_true]; exact ⟨by unfold persistentLoad; split <;> rfl, hst.2⟩)
+      exact hs.setStack (by simp only [allowedL, Bool.and_eq_true]; exact ⟨by unfold persistentLoad; split <;> (try split) <;> rfl, hst.2⟩)
     · simp at h
   case unsupported nm => simp at h
 
